@@ -265,5 +265,37 @@ theorem source_ok_physical_full_fails : ¬ source_ok_physical_full := by
   have := h (-12) 1 1 (by norm_num) (by norm_num) (-13) false (by decide +kernel)
   norm_num at this
 
+/-! ### a first liveness fact: an exact fixed point is returned by the very next sweep -/
+
+theorem isClose_self (atol rtol a : α) (ha : 0 ≤ atol) (hr : 0 ≤ rtol) : isClose atol rtol a a = true := by
+  unfold isClose
+  rw [leB_iff, nabs_eq_abs, nabs_eq_abs, sub_self, abs_zero]
+  exact add_nonneg ha (mul_nonneg hr (abs_nonneg _))
+
+theorem allClose_self (atol rtol : α) (l : List α) (ha : 0 ≤ atol) (hr : 0 ≤ rtol) :
+    allClose atol rtol l l = true := by
+  unfold allClose
+  induction l with
+  | nil => simp
+  | cons x xs ih =>
+    simp only [List.zipWith_cons_cons, List.all_cons, id_eq, Bool.and_eq_true]
+    exact ⟨isClose_self atol rtol x ha hr, ih⟩
+
+/-- If one forward and one backward sweep reproduce `(v, i)` exactly, the loop stops at this sweep and
+    returns `(v, i)` — whatever the (non-negative) tolerances.  (The general liveness clause of C03 —
+    convergence *to* a modest-drop steady state from the solver's initial guess — is not proved.) -/
+theorem exact_fixed_point_returns (s : SSys α) (cfg : Cfg α) (phase : String) (fuel : Nat)
+    (v i : Vec α) (st st' : St) (it : Nat)
+    (hat : 0 ≤ cfg.atol) (hv : 0 ≤ cfg.vtol) (hi : 0 ≤ cfg.itol)
+    (hf : s.fwdProp phase v i st = .ok (v, st')) (hb : s.backProp phase v i st = i) :
+    s.loop cfg phase (fuel + 1) v i st it = .ok ⟨v, i, it + 1, st⟩ := by
+  unfold SSys.loop
+  rw [hf]
+  simp only [bind, Except.bind, hb]
+  have hc : converged cfg v v i i = true := by
+    unfold converged
+    rw [allClose_self _ _ _ hat hv, allClose_self _ _ _ hat hi]; rfl
+  rw [if_pos hc]
+
 end C03
 end SysLoss
